@@ -284,4 +284,58 @@ example : Gen.SrcLess.less (fun _ => some 3) [1, 3, 3, 1, 2, 0] () = Rs.Res.ok [
 example : Gen.SrcLess.less (fun _ => none) [1, 3] () = Rs.Res.panic := by decide
 example : Gen.SrcLess.less (fun _ => some 1) [1, 3] () = Rs.Res.panic := by decide
 
+/-! ### `bwtfind`, `invert_bwt` translated from the source text (same generated file; `less(..)`, `bwtfind(..)` are calls
+of the translated functions, `Alphabet::new(bwt)` is the abstract `alphNew`) -/
+
+/-- **`pub fn bwtfind`, as written, is the mirror model `bwtfindModel`**: the slots `bwtfind[less[c]] = r; less[c] += 1`
+over the array returned by the translated `less()`; every write is in bounds because `less[c]` + the number of earlier
+`c`s is a row of the BWT -/
+theorem bwtfind_source_eq_model {Alph : Type} (maxSymbol : Alph → Option Nat) (bwt : List Nat) (alphabet : Alph) (ms : Nat)
+    (hms : maxSymbol alphabet = some ms) (hms' : ms + 2 < 2 ^ 64) (hn : bwt.length < 2 ^ 64)
+    (hsym : ∀ x ∈ bwt, x < ms + 2) :
+    Gen.SrcLess.bwtfind maxSymbol bwt alphabet = Rs.Res.ok (InvBWT.bwtfindModel bwt (ms + 2)) :=
+  GenSrcLess.bwtfind_eq_model maxSymbol bwt alphabet ms hms hms' hn hsym
+
+/-- **`pub fn invert_bwt`, as written, is the mirror model `invertModel`** for a non-empty BWT (on the empty one
+`bwtfind[0]` panics) whose symbols lie below `max_symbol + 2` of the alphabet `Alphabet::new(bwt)` -/
+theorem invert_bwt_source_eq_model {Alph : Type} (maxSymbol : Alph → Option Nat) (alphNew : List Nat → Alph)
+    (bwt : List Nat) (ms : Nat) (hms : maxSymbol (alphNew bwt) = some ms) (hms' : ms + 2 < 2 ^ 64)
+    (hpos : 0 < bwt.length) (hn : bwt.length < 2 ^ 64) (hsym : ∀ x ∈ bwt, x < ms + 2) :
+    Gen.SrcLess.invert_bwt maxSymbol alphNew bwt = Rs.Res.ok (InvBWT.invertModel bwt (ms + 2)) :=
+  GenSrcLess.invert_bwt_eq_model maxSymbol alphNew bwt ms hms hms' hpos hn hsym
+
+/-- **generated code = specification: `invert_bwt(bwt(t)) = t`** for the translated `invert_bwt` (which calls the
+translated `bwtfind`, `less`, `prescan`): every text whose last symbol is its unique smallest symbol is reproduced from
+the BWT of its sorted suffix permutation, provided `Alphabet::new` / `max_symbol` give a bound `ms` with every text
+symbol `≤ ms + 1` (for the real alphabet: the maximum) -/
+theorem invert_bwt_source_roundtrip {Alph : Type} (maxSymbol : Alph → Option Nat) (alphNew : List Nat → Alph)
+    (t sa : List Nat) (ms : Nat)
+    (hperm : sa.Perm (List.range t.length))
+    (hsorted : sa.Pairwise (fun i j => lexLt (t.drop i) (t.drop j)))
+    (hhead : sa.head? = some (t.length - 1))
+    (hpos : 0 < t.length) (hlen : t.length < 2 ^ 64)
+    (hmin : ∀ p, p < t.length → t.getD (t.length - 1) 0 ≤ t.getD p 0)
+    (huniq : ∀ p, p < t.length → t.getD p 0 = t.getD (t.length - 1) 0 → p = t.length - 1)
+    (hms : maxSymbol (alphNew (bwtRef t sa)) = some ms) (hms' : ms + 2 < 2 ^ 64)
+    (hm : ∀ x ∈ t, x < ms + 2) :
+    Gen.SrcLess.invert_bwt maxSymbol alphNew (bwtRef t sa) = Rs.Res.ok t := by
+  have hl : (bwtRef t sa).length = t.length := by
+    unfold bwtRef; rw [List.length_map]; simpa using hperm.length_eq
+  have hsym : ∀ x ∈ bwtRef t sa, x < ms + 2 := by
+    intro x hx
+    unfold bwtRef at hx
+    obtain ⟨p, _, rfl⟩ := List.mem_map.mp hx
+    have hlt : (p + t.length - 1) % t.length < t.length := Nat.mod_lt _ hpos
+    rw [List.getD_eq_getElem?_getD, List.getElem?_eq_getElem hlt]
+    exact hm _ (List.getElem_mem hlt)
+  rw [GenSrcLess.invert_bwt_eq_model maxSymbol alphNew (bwtRef t sa) ms hms hms' (by rw [hl]; exact hpos)
+    (by rw [hl]; exact hlen) hsym]
+  exact congrArg Rs.Res.ok (invert_bwt_roundtrip t sa (ms + 2) hperm hsorted hhead hpos hmin huniq hm)
+
+example : Gen.SrcLess.bwtfind (fun _ => some 99) [97, 99, 99, 97, 98, 36] () = Rs.Res.ok [5, 0, 3, 4, 1, 2] := by decide
+example : Gen.SrcLess.invert_bwt (fun _ => some 99) (fun _ => ()) [97, 99, 99, 97, 98, 36]
+    = Rs.Res.ok [99, 97, 98, 99, 97, 36] := by decide
+-- the empty BWT: `bwtfind[0]` is out of bounds, the Rust code panics
+example : Gen.SrcLess.invert_bwt (fun _ => some 99) (fun _ => ()) [] = Rs.Res.panic := by decide
+
 end RbV.Thm.C04
